@@ -32,8 +32,9 @@ theorem check_run_ok (c : Case) (h : caseOk c) : Spec.check c (run current c) = 
 /-- non-vacuity: cases of every stream are inside the claimed domain and produce full observations -/
 example : caseOk (.attrWire 2 0x40 [2, 2, 0, 0, 0xfd, 0xe9, 0, 1, 0, 0, 1, 1, 0, 0, 0, 7]) := by
   intro f hf; simp [canonicalFlags] at hf; omega
-example : caseOk (.attrApi (.asPath [(2, [65001, 4200000000]), (1, [7])])) := by
-  show ApiAttr.inRange _ = true; decide
+example : caseOk (.attrApi (.asPath [(2, [65001, 4200000000]), (1, [7])])) :=
+  ⟨by decide, trivial⟩
+example : caseOk (.attrApi (.mpReach (some (2, 1)) [.ip6 1])) := ⟨by decide, by simp [oneNextHop]⟩
 example : caseOk (.nlriApi (.labeled [100, 200] 24 (.ip4 167772160))) := by
   show ApiNlri.inRange _ = true; decide
 example : fromApi current (.asPath [(2, [65001, 4200000000]), (1, [7])]) =
@@ -122,8 +123,29 @@ theorem from_api_wf_nlri (x : ApiNlri) (n : Nlri) (hr : x.inRange = true)
     `flags` unset; a raw extended community may be shown in its typed form).  Nothing is altered
     silently: what cannot be stored exactly is an `Err`. -/
 theorem listed_same_as_added (x : ApiAttr) (a : Attribute) (y : ApiAttr) (hr : x.inRange = true)
-    (h : fromApi current x = .ok a) (hy : toApi current a = .ok y) : sameListed x y = true :=
-  listed_same x a y hr h hy
+    (h1 : oneNextHop x) (h : fromApi current x = .ok a) (hy : toApi current a = .ok y) : sameListed x y = true :=
+  listed_same x a y hr h1 h hy
+
+/-- a typed MP_REACH message (`MpReachNlriAttribute`) that is accepted is stored as a well-formed carrier of
+    octets with the flags of MP_REACH_NLRI, and shown as the raw carrier of its family and its next hop -/
+theorem typed_mp_reach_stored (fam : Option (Nat × Nat)) (nhs : List AStr) (a : Attribute)
+    (hr : (ApiAttr.mpReach fam nhs).inRange = true) (h : fromApi current (.mpReach fam nhs) = .ok a) :
+    WF a ∧ a.code = 14 ∧ a.flags = 0x80 := by
+  obtain ⟨hst, h0, hsz⟩ := Rbgp.Api.fromApi_ok _ a h
+  refine ⟨(Rbgp.Api.from_api_wf _ a hr h0 hsz hst).1, ?_, ?_⟩
+  · exact Rbgp.Api.from_api_codeOf _ a h0
+  · simp only [fromApi0] at h0
+    split at h0
+    · simp at h0
+    · simp [newWithBin, canonicalFlags] at h0; subst h0; rfl
+
+/-- ... but only its FIRST next hop is kept: a message with an IPv6 global and link-local next hop is accepted
+    and listed without the second one (open finding `listed-lacks-further-next-hops`) -/
+theorem further_next_hops_dropped :
+    ∃ a y, fromApi current (.mpReach (some (2, 1)) [.ip6 1, .ip6 2]) = .ok a ∧ toApi current a = .ok y ∧
+      y = .unknown 0x80 14 (mpCarrier 2 1 (beN 16 1)) ∧
+      sameListed (.mpReach (some (2, 1)) [.ip6 1, .ip6 2]) y = false :=
+  ⟨⟨14, 0x80, .bin (mpCarrier 2 1 (beN 16 1))⟩, _, by decide, by decide, rfl, by decide⟩
 
 theorem listed_same_as_added_nlri (x : ApiNlri) (n : Nlri) (hr : x.inRange = true)
     (h : netFromApi current x = .ok n) : nlriToApi n = x := by
